@@ -915,3 +915,91 @@ func EscapeFamilies() []*spec.Grammar {
 	}
 	return res
 }
+
+// Big produces a larger, conflict-free "statement language": keyword
+// statements, blocks, argument lists and a layered expression grammar with
+// several precedence levels written out as nonterminals. Typical size: 20-45
+// tokens, 10-20 nonterminals, 30-70 rules, 60-200 LR(0) states.
+func Big(r *rand.Rand) *spec.Grammar {
+	g := &spec.Grammar{}
+	tokN := 0
+	tok := func(prefix string) spec.Sym {
+		tokN++
+		g.Tokens = append(g.Tokens, spec.Token{Name: fmt.Sprintf("%s%d", prefix, tokN), Decl: "token", Tag: "s"})
+		return spec.Sym{T: true, I: len(g.Tokens) - 1}
+	}
+	nt := func(name string) int {
+		g.NTs = append(g.NTs, spec.NT{Name: name, Tag: "s"})
+		return len(g.NTs) - 1
+	}
+	N := func(i int) spec.Sym { return spec.Sym{I: i} }
+	add := func(lhs int, rhs ...spec.Sym) {
+		g.Rules = append(g.Rules, spec.Rule{Lhs: lhs, Rhs: rhs, Prec: -1})
+	}
+	prog, list, stmt, block, args := nt("Prog"), nt("StmtList"), nt("Stmt"), nt("Block"), nt("ArgList")
+	levels := 2 + r.Intn(5)
+	var ex []int
+	for l := 0; l <= levels; l++ {
+		ex = append(ex, nt(fmt.Sprintf("E%d", l)))
+	}
+	semi, lp, rp, lb, rb, comma, assign, id := tok("Tsemi"), tok("Tlp"), tok("Trp"), tok("Tlb"), tok("Trb"), tok("Tcomma"), tok("Tassign"), tok("Tid")
+	add(prog, N(list))
+	if r.Intn(2) == 0 {
+		add(prog)
+	}
+	add(list, N(list), N(stmt))
+	add(list, N(stmt))
+	// statements
+	nkw := 3 + r.Intn(6)
+	for k := 0; k < nkw; k++ {
+		kw := tok("Tkw")
+		switch r.Intn(5) {
+		case 0:
+			add(stmt, kw, N(ex[0]), semi)
+		case 1:
+			add(stmt, kw, lp, N(args), rp, semi)
+		case 2:
+			add(stmt, kw, lp, N(ex[0]), rp, N(block))
+		case 3:
+			add(stmt, kw, N(block))
+		default:
+			add(stmt, kw, id, semi)
+		}
+	}
+	add(stmt, id, assign, N(ex[0]), semi)
+	add(stmt, N(block))
+	add(block, lb, N(list), rb)
+	add(block, lb, rb)
+	add(args, N(args), comma, N(ex[0]))
+	add(args, N(ex[0]))
+	// layered expressions
+	for l := 0; l < levels; l++ {
+		nops := 1 + r.Intn(3)
+		right := r.Intn(3) == 0
+		for o := 0; o < nops; o++ {
+			op := tok("Top")
+			if right {
+				add(ex[l], N(ex[l+1]), op, N(ex[l]))
+			} else {
+				add(ex[l], N(ex[l]), op, N(ex[l+1]))
+			}
+		}
+		add(ex[l], N(ex[l+1]))
+	}
+	top := ex[levels]
+	for u := 0; u < r.Intn(3); u++ {
+		add(top, tok("Tun"), N(top))
+	}
+	add(top, lp, N(ex[0]), rp)
+	add(top, id)
+	for a := 0; a < 1+r.Intn(3); a++ {
+		add(top, tok("Tlit"))
+	}
+	if r.Intn(2) == 0 {
+		add(top, id, lp, N(args), rp)
+		add(top, id, lp, rp)
+	}
+	g.Start = prog
+	g.DefaultActs()
+	return g
+}
